@@ -196,6 +196,11 @@ def check_find_snake(ctx, top):
         alts = [("D.boxes[cap].cod[1:]", "D.boxes[cup].dom[:1]"), ("D.boxes[cap].right", "D.boxes[cup].left")] if left else \
                [("D.boxes[cap].cod[:1]", "D.boxes[cup].dom[1:]"), ("D.boxes[cap].left", "D.boxes[cup].right")]
         okt = any(pred.entails(known, frozenset([frozenset([("opaque", "%s == %s" % tuple(sorted(p)), True)])])) for p in alts)
+        # ... and conversely: every pair that satisfies the four conditions IS returned (a snake the search skips stays in the normal form)
+        full = [pred._and(pred._and(pred._and(in_rng, is_cup), leg_eq), frozenset([frozenset([("opaque", "%s == %s" % tuple(sorted(p_)), True)])])) for p_ in alts]
+        okc = any(pred.entails(f_, known) for f_ in full)
+        ctx.ob("R07.2", Q + ".find_snake:yankable-%s:complete" % side, okc, found=pred.show(known), required="nothing else is asked of a pair: cup in range, a Cup, the leg enters the opposite leg, the surviving wire keeps "
+               "its type (any further condition leaves removable snakes in the normal form)", mod=RW, node=ret, sig="complete-" + side)
         ctx.ob("R07.6", Q + ".find_snake:yankable-%s:surviving-wire" % side, okt, found=pred.show(known),
                required="%s == %s (the wire that survives the yank has one type; otherwise the pair is not a snake equation)" % alts[0], mod=RW,
                node=ret, sig="types-" + side)
